@@ -492,4 +492,147 @@ theorem byDatatype_many {γ : Type} (m : P γ) (arms : List (Arm γ)) (cur : Byt
     byDatatype (some m) arms cur = (array cur).andThen fun _ r => m r := by
   simp [byDatatype, hdt]
 
+/-! ## the transparent wrappers `Bytes`, `Int` and the numeric wrappers -/
+
+/-- `i8()..i64()` / `int()` on `Encoder::int` of a negative number `-1 - n` -/
+theorem neg_head (n : Nat) (r : Bytes) (hn : n < 2 ^ 64) :
+    ∃ b t, encHead 1 n ++ r = b :: t ∧ ¬ b.toNat ≤ 0x1b ∧ (0x20 ≤ b.toNat ∧ b.toNat ≤ 0x3b) ∧
+      unsigned (b.toNat - 0x20) t = .ok n r := by
+  have hai := minHead_ai_le 1 n
+  have hb := initByte_toNat 1 (minHead 1 n).ai (by omega) (by omega)
+  refine ⟨initByte 1 (minHead 1 n).ai, (minHead 1 n).arg ++ r, by simp [encHead_eq], by omega, by omega, ?_⟩
+  have : (initByte 1 (minHead 1 n).ai).toNat - 0x20 = (minHead 1 n).ai := by omega
+  rw [this]; exact unsigned_minHead 1 n r hn
+
+theorem pos_head (n : Nat) (r : Bytes) (hn : n < 2 ^ 64) :
+    ∃ b t, encHead 0 n ++ r = b :: t ∧ b.toNat ≤ 0x1b ∧ unsigned b.toNat t = .ok n r := by
+  have hai := minHead_ai_le 0 n
+  have hb := initByte_toNat 0 (minHead 0 n).ai (by omega) (by omega)
+  refine ⟨initByte 0 (minHead 0 n).ai, (minHead 0 n).arg ++ r, by simp [encHead_eq], by omega, ?_⟩
+  have : (initByte 0 (minHead 0 n).ai).toNat = (minHead 0 n).ai := by omega
+  rw [this]; exact unsigned_minHead 0 n r hn
+
+/-- `int()` reads back what `Encoder::int` wrote, over the whole 65-bit range -/
+theorem int_enc (i : Int) (r : Bytes) (hlo : -(2 ^ 64 : Int) ≤ i) (hhi : i < 2 ^ 64) :
+    Minicbor.int (encInt i ++ r) = .ok i r := by
+  unfold encInt
+  split
+  · rename_i h0
+    obtain ⟨b, t, e, hb, hu⟩ := pos_head i.toNat r (by omega)
+    rw [e]; simp only [Minicbor.int]; rw [if_pos hb, hu]
+    simp [Int.toNat_of_nonneg h0]
+  · rename_i h0
+    obtain ⟨b, t, e, hb1, hb2, hu⟩ := neg_head (-1 - i).toNat r (by omega)
+    rw [e]; simp only [Minicbor.int]; rw [if_neg hb1, if_pos hb2, hu]
+    simp only [Res.map_ok, Res.ok.injEq, and_true]
+    have : ((-1 - i).toNat : Int) = -1 - i := Int.toNat_of_nonneg (by omega)
+    simp only [Int.ofNat_eq_coe]; omega
+
+/-- `i64()` reads back what `Encoder::i64` wrote -/
+theorem i64_enc (i : Int) (r : Bytes) (hlo : -(2 ^ 63 : Int) ≤ i) (hhi : i < 2 ^ 63) :
+    Minicbor.i64 (encInt i ++ r) = .ok i r := by
+  unfold encInt
+  split
+  · rename_i h0
+    obtain ⟨b, t, e, hb, hu⟩ := pos_head i.toNat r (by omega)
+    rw [e]; simp only [Minicbor.i64, sintN]; rw [if_pos hb, hu]
+    have hlt : i.toNat < 2 ^ (64 - 1) := by simp only [show (64 - 1 : Nat) = 63 by rfl]; omega
+    simp [hlt, Int.toNat_of_nonneg h0]
+  · rename_i h0
+    obtain ⟨b, t, e, hb1, hb2, hu⟩ := neg_head (-1 - i).toNat r (by omega)
+    rw [e]; simp only [Minicbor.i64, sintN]; rw [if_neg hb1, if_pos hb2, hu]
+    have hlt : (-1 - i).toNat < 2 ^ (64 - 1) := by simp only [show (64 - 1 : Nat) = 63 by rfl]; omega
+    simp only [Res.andThen_ok, hlt, if_true, Res.ok.injEq, and_true]
+    have : ((-1 - i).toNat : Int) = -1 - i := Int.toNat_of_nonneg (by omega)
+    simp only [Int.ofNat_eq_coe]; omega
+
+theorem bytes_rt : RTon cBytes (fun b => b.length < 2 ^ 64) := fun b hb r => bytes_enc b r hb
+theorem int_rt : RTon cInt (fun i => -(2 ^ 64 : Int) ≤ i ∧ i < 2 ^ 64) := fun i ⟨h1, h2⟩ r => int_enc i r h1 h2
+theorem u64_rt : RTon cU64 (fun n => n < 2 ^ 64) := fun n hn r => u64_enc n r hn
+
+/-- `PositiveCoin` values built by the checked constructor round-trip -/
+theorem positiveCoin_rt : RTon cPositiveCoin (fun n => n ≠ 0 ∧ n < 2 ^ 64) := by
+  intro n ⟨h0, hn⟩ r
+  simp [cPositiveCoin, PositiveCoin.dec, PositiveCoin.enc, u64_enc n r hn, h0]
+
+/-- `NonZeroInt` values built by the checked constructor round-trip -/
+theorem nonZeroInt_rt : RTon cNonZeroInt (fun i => i ≠ 0 ∧ -(2 ^ 63 : Int) ≤ i ∧ i < 2 ^ 63) := by
+  intro i ⟨h0, h1, h2⟩ r
+  simp [cNonZeroInt, NonZeroInt.dec, NonZeroInt.enc, i64_enc i r h1 h2, h0]
+
+/-! ## a concrete `codec_by_datatype!` enum -/
+
+def Thing.wf : Thing → Prop
+  | .coin a => a.wf
+  | .flag _ => True
+  | .blob b => b.length < 2 ^ 64
+  | .multi a n => a.wf ∧ Nullable.wfWith (fun x => x < 2 ^ 64) n
+
+theorem typeOf_bool (cur : Bytes) (b : Bool) : typeOf cur (if b then 0xf5 else 0xf4) = .ok .bool := by
+  cases b
+  · have : (0xf4 : UInt8).toNat = 0xf4 := rfl
+    simp only [Bool.false_eq_true, if_false]; type_of_ifs
+  · have : (0xf5 : UInt8).toNat = 0xf5 := rfl
+    simp only [if_true]; type_of_ifs
+
+/-- the datatype of an `AnyUInt` encoding is one of the four unsigned types -/
+theorem anyuint_datatype (a : AnyUInt) (hw : a.wf) (r : Bytes) :
+    ∃ ty, datatype (AnyUInt.enc a ++ r) = .ok ty ∧ (ty = .u8 ∨ ty = .u16 ∨ ty = .u32 ∨ ty = .u64) := by
+  cases a with
+  | majorByte x =>
+    simp only [AnyUInt.wf] at hw
+    refine ⟨.u8, ?_, Or.inl rfl⟩
+    simp only [AnyUInt.enc, be, List.cons_append, List.nil_append, datatype]
+    exact typeOf_u8 _ _ (by rw [toNat_ofNat_lt _ (by omega)]; omega)
+  | u8 x => exact ⟨.u8, by simp only [AnyUInt.enc, List.cons_append, datatype]; exact typeOf_u8 _ (24 : UInt8) (by decide), Or.inl rfl⟩
+  | u16 x => exact ⟨.u16, by simp only [AnyUInt.enc, List.cons_append, datatype]; exact typeOf_u16 _ (25 : UInt8) rfl, Or.inr (Or.inl rfl)⟩
+  | u32 x => exact ⟨.u32, by simp only [AnyUInt.enc, List.cons_append, datatype]; exact typeOf_u32 _ (26 : UInt8) rfl, Or.inr (Or.inr (Or.inl rfl))⟩
+  | u64 x => exact ⟨.u64, by simp only [AnyUInt.enc, List.cons_append, datatype]; exact typeOf_u64 _ (27 : UInt8) rfl, Or.inr (Or.inr (Or.inr rfl))⟩
+
+theorem u64_notNullish : NotNullish cU64 (fun x => x < 2 ^ 64) := by
+  intro n hn r
+  have hai := minHead_ai_le 0 n
+  have hb := initByte_toNat 0 (minHead 0 n).ai (by omega) (by omega)
+  have hd : datatype (cU64.enc n ++ r) = typeOf (cU64.enc n ++ r) (initByte 0 (minHead 0 n).ai) := by
+    simp [cU64, encUInt, encHead_eq, datatype]
+  rcases typeOf_uint_cases (cU64.enc n ++ r) (initByte 0 (minHead 0 n).ai) (by omega) with ⟨_, e⟩ | ⟨_, e⟩ | ⟨_, e⟩ | ⟨_, e⟩
+  · exact ⟨_, hd.trans e, by decide, by decide⟩
+  · exact ⟨_, hd.trans e, by decide, by decide⟩
+  · exact ⟨_, hd.trans e, by decide, by decide⟩
+  · exact ⟨_, hd.trans e, by decide, by decide⟩
+
+/-- **an enum generated by `codec_by_datatype!` round-trips** (its variants' datatypes are disjoint):
+    `Thing { Coin(AnyUInt) | Flag(bool) | Blob(Bytes) | Multi(AnyUInt, Nullable<u64>) }` -/
+theorem thing_rt : RTon ⟨Thing.enc, Thing.dec⟩ Thing.wf := by
+  intro t hw r
+  show Thing.dec (Thing.enc t ++ r) = .ok t r
+  cases t with
+  | coin a =>
+    obtain ⟨ty, hty, hcases⟩ := anyuint_datatype a hw r
+    have hdec : AnyUInt.dec (AnyUInt.enc a ++ r) = .ok a r := anyuint_rt a hw r
+    have hsel : (ty == .u8 || ty == .u16 || ty == .u32 || ty == .u64) = true := by
+      rcases hcases with rfl | rfl | rfl | rfl <;> rfl
+    have hna : ty ≠ .array := by rcases hcases with rfl | rfl | rfl | rfl <;> decide
+    simp only [Thing.dec, Thing.enc, byDatatype, hty, hna, if_false, byDatatypeArms, hsel, if_true, hdec, Res.map_ok]
+  | flag b =>
+    have hty : datatype (encBool b ++ r) = .ok .bool := by
+      simp only [encBool, List.cons_append, List.nil_append, datatype]; exact typeOf_bool _ b
+    have hd : Minicbor.bool (encBool b ++ r) = .ok b r := by cases b <;> simp [encBool, Minicbor.bool]
+    simp [Thing.dec, Thing.enc, byDatatype, hty, byDatatypeArms, hd]
+  | blob b =>
+    simp only [Thing.wf] at hw
+    have hai := minHead_ai_le 2 b.length
+    have hb := initByte_toNat 2 (minHead 2 b.length).ai (by omega) (by omega)
+    have hty : datatype (encBytes b ++ r) = .ok .bytes := by
+      simp only [encBytes, encHead_eq, List.cons_append, List.append_assoc, datatype]
+      exact typeOf_bytes _ _ (by omega) (by omega)
+    simp [Thing.dec, Thing.enc, byDatatype, hty, byDatatypeArms, bytes_enc b r hw]
+  | multi a n =>
+    obtain ⟨ha, hn⟩ := hw
+    have hty : datatype (encArrayHead 2 ++ (AnyUInt.enc a ++ (Nullable.enc cU64 n ++ r))) = .ok .array := datatype_encHead_array _ _
+    have h1 : AnyUInt.dec (AnyUInt.enc a ++ (Nullable.enc cU64 n ++ r)) = .ok a (Nullable.enc cU64 n ++ r) := anyuint_rt a ha _
+    have h2 : Nullable.dec cU64 (Nullable.enc cU64 n ++ r) = .ok n r :=
+      nullable_rt cU64 (fun x => x < 2 ^ 64) (fun x hx r => u64_enc x r hx) u64_notNullish n hn r
+    simp [Thing.dec, Thing.enc, byDatatype, List.append_assoc, hty, array_enc 2 _ (by omega), h1, h2]
+
 end PallasVerif.Wrappers
